@@ -213,7 +213,7 @@ Theorem open_inputs_exact W fuel root name d id p xin r c :
     /\ sub_at (EObj (vals_of2 dn)) (snd id) = Some (EOpen p inputs)
     /\ sub_at (EObj (vals_of2 dn)) (snd (inputs_id id)) = Some inputs
     /\ memo_get (inputs_id id) (memo s') = Some (Some iv)
-    /\ export big_fuel iv = Some xin
+    /\ export_t iv = Some xin
     /\ alookup p (w_provs W) = Some pv
     /\ contains_unknowns iv = false
     /\ x_has_unknown xin = false
@@ -316,7 +316,7 @@ Theorem run_open_inputs_exact fuel W name d id p xin r c :
     /\ sub_at (EObj (vals_of2 dn)) (snd id) = Some (EOpen p inputs)
     /\ sub_at (EObj (vals_of2 dn)) (snd (inputs_id id)) = Some inputs
     /\ memo_get (inputs_id id) (memo s') = Some (Some iv)
-    /\ export big_fuel iv = Some xin
+    /\ export_t iv = Some xin
     /\ alookup p (w_provs W) = Some pv
     /\ contains_unknowns iv = false
     /\ x_has_unknown xin = false
